@@ -1031,7 +1031,10 @@ def mem_value(sg, loc, node, max_steps=20000):
                 terms.append(('partial_overwrite', x))
                 hit = True
         elif n.kind == 'call' and n.inl is None:
-            for a in n.d['args']:
+            for ai, a in enumerate(n.d['args']):
+                aty = n.d.get('arg_tys', [''] * (ai + 1))[ai] if ai < len(n.d.get('arg_tys', [])) else ''
+                if aty.startswith('&') and not aty.startswith('&mut'):
+                    continue     # shared reference: the callee cannot write through it
                 t = strip_ptr(S.operand(x, a))
                 if t[0] == 'ref' and t[1][1] == root and t[1][2] == loc[2][:len(t[1][2])]:
                     # pointer to the location (or an enclosing object) escapes into an opaque call
